@@ -152,4 +152,18 @@ theorem ctl_no_disconnect_same (U : Unpack Msg) (fuel : Nat) (buf : Bytes) (off 
 example : (ctlFeedD demoU (fun m => m == 2) 8 init
     [1,2,0,8,0,0,0,1,  1,3,0,8,0,0,0,5,  1,4,0,8,0,0,0,6]).delivered = [2] := by decide
 
+/-- **ctl_disconnect_persists**: the `disconnected` mark outlives the read in which a handler set it — a later read
+that finds a whole header in the buffer throws the connection away without dispatching anything, whatever arrived. -/
+theorem ctl_disconnect_persists (U : Unpack Msg) (D : Msg → Bool) (s : CS Msg) (c : Bytes)
+    (hs : s.st = .alive) (hd : s.delivered.any D = true) (hlen : 8 ≤ (s.buf ++ c).length) :
+    (ctlFeedD U D 8 s c).delivered = s.delivered ∧ (ctlFeedD U D 8 s c).st = .closed := by
+  unfold ctlFeedD
+  rw [hs]
+  simp only [hd]
+  rw [ctlLoopD]
+  have h8 : ¬ (s.buf.length + c.length < 8) := by simp at hlen; omega
+  simp [h8]
+example : ([[1,2,0,8,0,0,0,1, 1], [3,0,8,0,0,0,5, 1,4,0,8,0,0,0,6]].foldl (ctlFeedD demoU (fun m => m == 2) 8) init).delivered = [2] ∧
+    ([[1,2,0,8,0,0,0,1, 1], [3,0,8,0,0,0,5, 1,4,0,8,0,0,0,6]].foldl (ctlFeedD demoU (fun m => m == 2) 8) init).st = .closed := by decide
+
 end Pox.C10
